@@ -111,6 +111,46 @@ Print Assumptions C17_set.
 Print Assumptions C17_del.
 Print Assumptions C17_history.
 
+(* ---- child contexts: transparency and shadowing (what `let`, lambda parameters and `def` rely on) --------------- *)
+From YV Require Import Lemmas.ContextsChild.
+
+(* a fresh child reads exactly what its receiver reads - every name, every class of receiver - and creating it
+   changes what NO context reads (the store only grows by one empty plain context) *)
+Theorem C17_child_transparent : forall s c d n,
+  get_data (fst (create_child s c)) (snd (create_child s c)) n = get_data s c n
+  /\ get_data (fst (create_child s c)) d n = get_data s d n.
+Proof. exact (fun s c d n => conj (child_transparent s c n) (child_keeps_others s c d n)). Qed.
+
+(* an assignment made through a fresh child shadows that one name for the child only: the child reads the new
+   value, every other name through the child reads as the receiver did, and EVERY context built over the old store
+   (the receiver, its ancestors, siblings, multi/linked contexts over them) reads every name as before *)
+Theorem C17_child_shadow : forall s c n v, good (length s) c ->
+  let s1 := fst (create_child s c) in
+  let ch := snd (create_child s c) in
+  let s2 := fst (set_data s1 ch n v) in
+  get_data s2 ch n = Some v
+  /\ (forall d n', good (length s) d -> get_data s2 d n' = get_data s d n')
+  /\ (forall n', normalize n' <> normalize n -> get_data s2 ch n' = get_data s c n').
+Proof. exact child_shadow. Qed.
+
+(* the premise of C17_child_shadow holds for every context of every reachable state *)
+Theorem C17_history_good : forall ops,
+  Forall (good (length (st (run_state init_state ops)))) (env (run_state init_state ops)).
+Proof. exact (fun ops => run_Inv ops init_state Inv_init). Qed.
+
+(* non-vacuity: shadowing `x` through a child of a multi-context over two roots *)
+Example C17_child_example :
+  let ops := [ONewPlain None; OSet 0 [120%Z] 1%Z; ONewPlain None; OSet 1 [121%Z] 2%Z; ONewMulti [0; 1]; OChild 2;
+              OSet 3 [120%Z] 9%Z] in
+  let x := run_state init_state ops in
+  let g i n := get_data (st x) (nth i (env x) (CPlain 0 None)) n in
+  g 3 [120%Z] = Some 9%Z /\ g 3 [121%Z] = Some 2%Z /\ g 2 [120%Z] = Some 1%Z /\ g 0 [120%Z] = Some 1%Z.
+Proof. vm_compute. repeat split. Qed.
+
+Print Assumptions C17_child_transparent.
+Print Assumptions C17_child_shadow.
+Print Assumptions C17_history_good.
+
 (* ---- convention-aware lookups (use_convention=True) ------------------------------------------------------------ *)
 From YV Require Import Model.ContextsConv Lemmas.ContextsConv.
 
